@@ -6,7 +6,9 @@ Abs/Compile.lean.
 `elabWith pf κ toks t`: one bottom-up pass (`go`).  A node is read by its definition and by which children it has:
   no child      value nodes — unit / true / false, number / text / byte list (Model/Literals on the text of token `tok` of
                 `toks`, with the same float parser `pf` as `build`), symbol, property, `$`, identifier
-  right only    prefix operators (table of `handle_parse_node`), `^~`, prefix identifier application
+  right only    prefix operators (table of `handle_parse_node`), `^~`, prefix identifier application;
+                a VALUE node whose right child is a `SideEffect` node without left child: `v [ body ]`, the side-effect block
+                after a value (`.sideAfter v body`)
   left only     suffix operators, suffix identifier application
   both          binary operators, `=`, `~>`, blank line / `;`, `List` / `CommaList` (a left spine of nodes of the same
                 definition is ONE list), `?>` / `!>`, `|>` (a left spine is ONE else-chain; a conditional as the right
@@ -14,7 +16,9 @@ Abs/Compile.lean.
   ( … )         transparent;   { }  the empty nested expression;   { body }  `.nested (κ tok)` and the body `(κ tok, body)`
                 in the table of bodies (`κ`: how bodies are named, from the position of their `{`).
 `none` — exactly what `Abs.Tree.Rep` cannot represent:
-  * side-effect blocks `[ … ]` (any node of definition SideEffect), the expression terminator, Unknown / Drop nodes;
+  * side-effect blocks anywhere but directly after a literal / `$` / identifier: `[b] v` (the block is the LEFT child of the
+    value), `(e) [b]` and `v [b] [c]` (the builder never looks at the `left` of a SideEffect node: the group content / the
+    first block is not compiled), `[ ]` without body; the expression terminator, Unknown / Drop nodes;
   * an operator with a missing operand (leading / trailing `,`, leading infix identifier, a separator without operand);
   * a value node whose text does not parse (number out of range, bad escape, …);
   * a conditional or else-chain as the DIRECT left operand of `&&` / `||` or as direct final arm of an else-chain
@@ -158,6 +162,16 @@ def go : RTree → Option (Res F)
         | none => none
     else none
   | .node .nil d k .nil => (leafE pf d (textAt toks k)).map (fun e => plain e [])
+  | .node .nil d k (.node .nil d2 k2 body) =>
+    if d2 == .sideEffect then
+      -- `v [ body ]`: a value node over a SideEffect node over the body
+      match leafE pf d (textAt toks k), go body with
+      | some e, some x => some (plain (.sideAfter e x.e) x.bodies)
+      | _, _ => none
+    else
+      match go (.node .nil d2 k2 body) with
+      | some x => preE d (textAt toks k) x
+      | none => none
   | .node .nil d k r =>
     match go r with
     | some x => preE d (textAt toks k) x
@@ -182,6 +196,14 @@ def elabWith (t : RTree) : Option (Program F) :=
   match go pf κ toks t with
   | some x => if idsOK (x.bodies.map (·.1)) then some { main := x.e, bodies := (0, x.e) :: x.bodies } else none
   | none => none
+
+/-- the reference tree read off a node array along an index tree (`toRG (dfOf nodes)` of Lemmas/ParserB8.lean, restated here
+so that the driver need not import the parser proofs; `treeRT_eq`, Lemmas/SourceRep2.lean) -/
+def treeRT (nodes : Array ParseNode) : Spec.Tree → RTree
+  | .nil => .nil
+  | .node l i k r =>
+    let d := ((nodes[i]?).map (·.definition)).getD .drop
+    if d == .group || d == .nestedExpression then .group d k (treeRT nodes r) else .node (treeRT nodes l) d k (treeRT nodes r)
 
 /-- the positions of the `{` of the non-empty nested expressions, in source order -/
 def braces : RTree → List Nat
